@@ -9,8 +9,7 @@ lower rank on the same input, so `run` is a total function without fuel (`step_d
 namespace DendroModel.C20
 open DendroModel
 
-/-- verdict classes of a read.  `internal` marks the sites where the code would dereference a `None` token or
-make no progress; the property theorems show they are unreachable. -/
+/-- the parse-error family of the library, as far as the verdict distinguishes it -/
 inductive PErr where
   | eos            -- UnexpectedEndOfStreamError
   | unterminated   -- UnterminatedQuoteError
@@ -20,6 +19,13 @@ inductive PErr where
   | nexus          -- NexusReaderError and subclasses
   | data           -- DataParseError raised by the PHYLIP / FASTA readers
 deriving Repr, DecidableEq
+
+/-- a token as the readers see it: its text and `is_token_quoted`.  A quoted token is always a label, whatever its
+text (`NewickReader._is_punctuation`): it is never equal to one of the structural tokens below. -/
+structure Tok where
+  text : List Char
+  quoted : Bool
+deriving DecidableEq, Repr
 
 inductive NTree where
   | node (label : Option (List Char)) (taxon : Option (List Char)) (len : Option (List Char)) (kids : List NTree)
@@ -92,26 +98,26 @@ structure NState where
   phase : Phase
   f : Frame
   stack : List Frame
-  cur : List Char
+  cur : Tok
   rest : List Char
   nesting : Nat
   seen : List Nat
   mapper : Mapper
-  trace : List (List Char)      -- ghost: every token that has been `current_token` in this statement, oldest first
+  trace : List Tok              -- ghost: every token that has been `current_token` in this statement, oldest first
 
 inductive NDone where
-  | ok (tree : NTree) (next : Option (List Char)) (rest : List Char) (mapper : Mapper) (trace : List (List Char))
+  | ok (tree : NTree) (next : Option Tok) (rest : List Char) (mapper : Mapper) (trace : List Tok)
   | err (e : PErr)
 
 inductive StepRes where
   | next (st : NState)
   | done (r : NDone)
 
-def semi : List Char := [';']
-def comma : List Char := [',']
-def lpar : List Char := ['(']
-def rpar : List Char := [')']
-def colon : List Char := [':']
+def semi : Tok := ⟨[';'], false⟩
+def comma : Tok := ⟨[','], false⟩
+def lpar : Tok := ⟨['('], false⟩
+def rpar : Tok := ⟨[')'], false⟩
+def colon : Tok := ⟨[':'], false⟩
 
 def nwCfg : Cfg := {}
 
@@ -120,7 +126,7 @@ def NState.advance (k : Cfg) (st : NState) (cont : NState → StepRes) : StepRes
   match nextT k st.rest with
   | .eof => .done (.err .eos)
   | .unterminated => .done (.err .unterminated)
-  | .tok t _ rest => cont { st with cur := t, rest := rest, trace := st.trace ++ [t] }
+  | .tok t q rest => cont { st with cur := ⟨t, q⟩, rest := rest, trace := st.trace ++ [⟨t, q⟩] }
 
 /-- the branches of the children loop for a current token that is not a comma -/
 def stepKidsNonComma (k : Cfg) (st : NState) : StepRes :=
@@ -148,8 +154,8 @@ def Frame.internal (f : Frame) : Bool :=
 def stepLab (k : Cfg) (st : NState) : StepRes :=
   if st.cur == colon then
     NState.advance k st (fun s =>
-      if pyFloatOk s.cur then
-        NState.advance k { s with f := { s.f with len := some s.cur } } (fun s2 => .next s2)
+      if pyFloatOk s.cur.text then
+        NState.advance k { s with f := { s.f with len := some s.cur.text } } (fun s2 => .next s2)
       else .done (.err .malformed))
   else if st.cur == rpar || st.cur == comma then
     -- this node is finished; the caller's loop goes on with the same token
@@ -163,16 +169,16 @@ def stepLab (k : Cfg) (st : NState) : StepRes :=
       match nextT k st.rest with
       | .unterminated => .done (.err .unterminated)
       | .eof => .done (.ok st.f.toTree none [] st.mapper st.trace)
-      | .tok t _ rest => .done (.ok st.f.toTree (some t) rest st.mapper st.trace)
+      | .tok t q rest => .done (.ok st.f.toTree (some ⟨t, q⟩) rest st.mapper st.trace)
   else if st.cur == lpar then .done (.err .malformed)
   else if st.f.labelParsed then .done (.err .malformed)
   else if st.f.internal then
-    NState.advance k { st with f := { st.f with label := some st.cur, labelParsed := true } } (fun s => .next s)
+    NState.advance k { st with f := { st.f with label := some st.cur.text, labelParsed := true } } (fun s => .next s)
   else
-    let r := st.mapper.lookup st.cur
+    let r := st.mapper.lookup st.cur.text
     if st.seen.contains r.1 then .done (.err .duplicate)
     else
-      NState.advance k { st with f := { st.f with taxon := some (r.2.ns.getD r.1 st.cur), labelParsed := true },
+      NState.advance k { st with f := { st.f with taxon := some (r.2.ns.getD r.1 st.cur.text), labelParsed := true },
                                  seen := r.1 :: st.seen, mapper := r.2 } (fun s => .next s)
 
 def step (k : Cfg) (st : NState) : StepRes :=
@@ -186,7 +192,8 @@ def step (k : Cfg) (st : NState) : StepRes :=
     if st.cur == comma then
       NState.advance k { st with f := st.f.addBlank } (fun s => .next s)
     else
-      let f := if !st.f.created && st.cur == rpar then { st.f.addBlank with created := true } else st.f
+      -- ',' directly before ')' designates a trailing blank node
+      let f := if st.cur == rpar then { st.f.addBlank with created := true } else st.f
       stepKidsNonComma k { st with f := f, phase := .kids }
   | .lab => stepLab k st
 
@@ -334,33 +341,33 @@ decreasing_by exact step_decreases k st st' h
 inductive StmtRes where
   | none_                                   -- end of stream before a statement: returns `None`
   | err (e : PErr)
-  | tree (t : NTree) (next : Option (List Char)) (rest : List Char) (mapper : Mapper) (trace : List (List Char))
+  | tree (t : NTree) (next : Option Tok) (rest : List Char) (mapper : Mapper) (trace : List Tok)
 
 /-- the loop `while (current_token == ";" or current_token is None) and not is_eof(): require_next_token()`.
 `started = false` only before the very first read (`_cur_char is None`, so `is_eof()` is false even on empty input). -/
-def skipSemis (k : Cfg) (cur : Option (List Char)) (rest : List Char) (started : Bool) :
-    Except PErr (Option (List Char) × List Char × Bool) :=
+def skipSemis (k : Cfg) (cur : Option Tok) (rest : List Char) (started : Bool) :
+    Except PErr (Option Tok × List Char × Bool) :=
   if (cur == some semi || cur == none) && !(started && rest.isEmpty) then
     match h : nextT k rest with
     | .eof => .error .eos
     | .unterminated => .error .unterminated
-    | .tok t _ rest' => skipSemis k (some t) rest' true
+    | .tok t q rest' => skipSemis k (some ⟨t, q⟩) rest' true
   else .ok (cur, rest, started)
 termination_by rest.length
 decreasing_by exact nextT_lt k _ _ _ _ h
 
 /-- the trailing loop `while current_token == ";" and not is_eof(): current_token = next_token()` -/
-def skipTrailingSemis (k : Cfg) (cur : Option (List Char)) (rest : List Char) : Except PErr (Option (List Char) × List Char) :=
+def skipTrailingSemis (k : Cfg) (cur : Option Tok) (rest : List Char) : Except PErr (Option Tok × List Char) :=
   if cur == some semi && !rest.isEmpty then
     match h : nextT k rest with
     | .eof => .ok (none, [])
     | .unterminated => .error .unterminated
-    | .tok t _ rest' => skipTrailingSemis k (some t) rest'
+    | .tok t q rest' => skipTrailingSemis k (some ⟨t, q⟩) rest'
   else .ok (cur, rest)
 termination_by rest.length
 decreasing_by exact nextT_lt k _ _ _ _ h
 
-def parseStatement (k : Cfg) (cur : Option (List Char)) (rest : List Char) (started : Bool) (mapper : Mapper) : StmtRes :=
+def parseStatement (k : Cfg) (cur : Option Tok) (rest : List Char) (started : Bool) (mapper : Mapper) : StmtRes :=
   match skipSemis k cur rest started with
   | .error e => .err e
   | .ok (cur, rest, started) =>
@@ -392,7 +399,7 @@ inductive NewickRes where
 
 /-- `tree_iter`: statements until `_parse_tree_statement` returns `None`.  The guard on the input length can only
 turn a non-progressing statement into `internal`; `Props/C20.lean` shows it never fires. -/
-def treeIter (k : Cfg) (cur : Option (List Char)) (rest : List Char) (started : Bool) (mapper : Mapper) (acc : List NTree) : NewickRes :=
+def treeIter (k : Cfg) (cur : Option Tok) (rest : List Char) (started : Bool) (mapper : Mapper) (acc : List NTree) : NewickRes :=
   match parseStatement k cur rest started mapper with
   | .none_ => .ok acc
   | .err e => .err e
